@@ -26,7 +26,10 @@ RULE = (
 VALUES = [-1, -2, 0, 0.0, False, 1, True, 1.0, 2, "a", "", "-1", ("t", 1), ("t", (1, 2)), None, 10 ** 18, -(10 ** 18),
           "x" * 200, 3.5, (-1,), (-2,), 256, 257, 1000, "k" * 70000,
           # one tuple argument vs the same values spread over several arguments (and the empty tuple vs no argument)
-          (1, 2), (), (-1, -2), ((1, 2),)]
+          (1, 2), (), (-1, -2), ((1, 2),),
+          # a positional STRING that is, character for character, what a serialiser makes of keyword arguments
+          '{"a": 1}', '{"a": 1, "b": 2}', '{}', "a=1", "(1,)", "{'a': 1}"]
+I_J_A1, I_J_A1B2, I_J_EMPTY = 29, 30, 31
 I_ONE, I_TWO, I_T12, I_EMPTY, I_TM, I_TT12 = 5, 8, 25, 26, 27, 28
 KWSETS = [{}, {"a": 1}, {"a": 1, "b": 2}, {"b": 2, "a": 1}, {"a": [1, 2]}, {"a": {"k": 1}}, {"a": -1}, {"a": -2},
           {"a": None}, {"z": "s", "a": 1.0}, {"a": 1.0}, {"a": True},
@@ -339,6 +342,8 @@ def gen_history(rng, nops):
         vals += [0, 1]  # -1 and -2
     if rng.random() < 0.35:
         vals += [I_ONE, I_TWO, I_T12, I_EMPTY]
+    if rng.random() < 0.25:
+        vals += [I_ONE, I_J_A1, I_J_A1B2, I_J_EMPTY]
     kws = rng.sample(range(len(KWSETS)), rng.randint(1, 3))
     if rng.random() < 0.7:
         kws.append(0)
@@ -384,6 +389,21 @@ def prelude():
                 {"op": "new", "c": b, "a": [], "k": 17, "i": 0},
                 {"op": "drop", "c": a, "a": [], "k": 13, "i": 0},
             ])
+        # C(1, '{"a": 1}') is not C(1, a=1); C('{"a": 1, "b": 2}') is not C(a=1, b=2); C('{}') is not C()
+        out.append([
+            {"op": "new", "c": a, "a": [I_ONE], "k": 1, "i": 0},
+            {"op": "new", "c": a, "a": [I_ONE, I_J_A1], "k": 0, "i": 0},
+            {"op": "new", "c": a, "a": [], "k": 2, "i": 0},
+            {"op": "new", "c": a, "a": [I_J_A1B2], "k": 0, "i": 0},
+            {"op": "new", "c": a, "a": [], "k": 0, "i": 0},
+            {"op": "new", "c": a, "a": [I_J_EMPTY], "k": 0, "i": 0},
+            {"op": "check", "c": a, "a": [I_ONE, I_J_A1], "k": 0, "i": 0},
+            {"op": "drop", "c": a, "a": [I_ONE, I_J_A1], "k": 0, "i": 0},
+            {"op": "check", "c": a, "a": [I_ONE], "k": 1, "i": 0},
+            {"op": "new", "c": a, "a": [I_ONE], "k": 1, "i": 0},
+            {"op": "new", "c": b, "a": [I_J_A1B2], "k": 0, "i": 0},
+            {"op": "new", "c": b, "a": [], "k": 2, "i": 0},
+        ])
         # C((1, 2)) is not C(1, 2), C(()) is not C(), C(((1, 2),)) is not C((1, 2)); each is itself again
         out.append([
             {"op": "new", "c": a, "a": [I_ONE, I_TWO], "k": 0, "i": 0},
@@ -466,7 +486,7 @@ def run(ctx):
     for n, ops in enumerate(pre):
         if n % ctx.nshards == ctx.shard:
             judge(ctx, ops)
-    nh = 5000 if quick else 20000
+    nh = ctx.n(5000 if quick else 20000)
     for n in range(nh):
         ops = gen_history(rng, rng.randint(30, 100))
         judge(ctx, ops)
